@@ -272,7 +272,12 @@ def evalRange (s : S) (a b : Nat) (res : Option (Nat × Nat × String)) : IO Uni
       let c := rangeCertified s.cfg.reorder node d
       -- route M: is the covering node an expression of the fragment for which certification is a theorem
       -- (C13_fragment_replacement_is_certified)?  Then the certificate cannot fail.
-      let frag := isExpr node && inFrag node
+      let len := s.src.utf8ByteSize
+      let tr := trimRange s.src.toList (min a len) (min b len)
+      let notMath := match cover tr.1 (min tr.2 len) t 0 .markup with
+        | some (_, _, mode) => mode != LMode.math
+        | none => false
+      let frag := isExpr node && inFrag node && notMath
       (if c then "rcert=ok" else "rcert=viol") ++ (if frag then (if c then " rm=in" else " rm=viol") else " rm=out")
     | _ => "rcert=na"
   match m, res with
